@@ -80,4 +80,23 @@ def run(index, tier="quick", seed=0) -> Result:
     from ..dimscan import report_translation
     report_translation(res, sc, lambda func, path: any(p_.endswith(".distance_to_surface") for p_ in path[:1]) or func.endswith(".distance_to_surface"),
                        "distance_to_surface implementations")
+    # ELL-1: the distance from the centre of an ellipse to its boundary is not symmetric under a <-> b (along x it is a,
+    # along y it is b): the result must depend on each semi-axis individually, not only through order-free combinations
+    # (sorted / min / max of the two, the eccentricity)
+    ecls = index.cls("Ellipse")
+    efn = ecls.lookup("distance_to_surface")
+    ite = Interp(index, config={"axis_symmetry": True})
+    re_ = ite.run_entry(efn, ecls)
+    rv = re_["result"]
+    if rv is None:
+        raise AnalysisError("Ellipse.distance_to_surface has no normal return")
+    ind = {("self", "_a"), ("self", "_b")} & rv.deps
+    if len(ind) == 2:
+        res.ok("ELL-1", "Ellipse.distance_to_surface", sample={"depends_individually_on": ["a", "b"]})
+    elif ("sym", "a|b") in rv.deps:
+        res.bad("ELL-1", "Ellipse.distance_to_surface:symmetric", f"{efn.file}:{efn.lineno}", "Ellipse.distance_to_surface uses the semi-axes only through "
+                "order-free combinations (sorted / min / max / eccentricity): the result is the same for Ellipse(a, b) and Ellipse(b, a), i.e. the "
+                "ellipse is implicitly rotated by 90 degrees whenever b > a")
+    else:
+        raise AnalysisError("ELL-1: dependence of Ellipse.distance_to_surface on the semi-axes not recognised")
     return res
